@@ -72,6 +72,25 @@ def c30(tier):
           distinct_nontrivial=len({json.dumps([k, n, [c0[0] for c0 in r["choices"]]]) for k, n, b, r in allres}),
           two_thread_interleavings={k: sum(1 for kk, n, b, r in allres if kk == k and n == 2) for k in KLASSES})
   run.sample({"klass": allres[0][0], "threads": allres[0][1], "ops": allres[0][3]["ops"], "got": allres[0][3]["got"]})
+  # "for the life of the process": histories of fabric start / stop / clear / subscribe / publish calls (the real module-level singletons,
+  # FabricTrace.tla clause NotSingle): after any of them every singleton still yields the object it yielded at first
+  from checks import fab
+  from harness import fabdrive
+  n = 300 if tier == "quick" else 6000
+  chunk = max(1, (n + 63) // 64)
+  with mp.get_context("fork").Pool(16) as pool:
+    fres = [x for part in pool.map(fab._work, [(common.seed(), lo, min(n, lo + chunk), "C30") for lo in range(0, n, chunk)]) for x in part]
+  fv, ft = fabdrive.validate(fres)
+  fby = dict(fres)
+  for tid, v2 in fv.items():
+    if v2.get("stuck"):
+      raise common.MachineryError("fabric trace %d not consumed" % tid)
+    if "NotSingle" in v2.get("bad", []):
+      r = fby[tid]
+      ev = r["events"][v2["at"] - 1]
+      run.violation("NotSingle", "after the fabric history %s the singleton(s) %s no longer yield the instance they yielded at first" % (
+        json.dumps(r["scen"]["main"]), ev[1]), {"scenario": r["scen"], "schedule": r["schedule"], "verdict": v2, "events": r["events"]})
+  run.add(fabric_histories_checked_for_singleness=len(fres), states=ft.distinct, transitions=ft.generated)
   return run.finish()
 
 
